@@ -179,9 +179,97 @@ pub fn run(o: &Opts) {
     }
   }
   wide_documents(o, &mut out, &mut rng);
+  indentation_edits(o, &mut out);
   out.finish("edit histories of 1-5 steps on error-free corpus sources of all 23 languages: deletion of a node, replacement by another node's text / by multi-byte text / by text that adds lines, insertions at node \
               boundaries, replacements from real pattern matches; steps whose resulting text does not parse cleanly are skipped (counted); after every step the edited document's text must be the spliced text and its \
-              pre-order dump (kind, byte range, depth) must equal that of a fresh parse, and searches (by kind — first the kinds the edit introduced — and by a pattern cut from the new tree, after a search before the edit) must find the same nodes in both; String::accept_edit (new text and the six InputEdit fields) is a tie case for the model. non-trivial = every applied step");
+              pre-order dump (kind, byte range, depth) must equal that of a fresh parse, and searches (by kind — first the kinds the edit introduced — and by a pattern cut from the new tree, after a search before the edit) must find the same nodes in both; String::accept_edit (new text and the six InputEdit fields) is a tie case for the model; edits that only resize the INSIDE of a run of blanks (indentation of layout-sensitive languages: Python, YAML, Haskell, Scala, Elixir..., incl. constructed nested blocks dedented to an outer level) are a stream of their own. non-trivial = every applied step");
+}
+
+
+/// Edits that touch nothing but blanks: the inside of a run of spaces/tabs is shortened or lengthened (first and last
+/// blank of the run stay). In layout-sensitive grammars the width of the indentation decides the block structure, so
+/// the tree must be re-derived although no token changed. Lines are dedented/indented to the indentation of OTHER
+/// lines of the same text (the levels that are likely to parse), plus random widths.
+fn indentation_edits(o: &Opts, out: &mut Out) {
+  let mut rng = Rng::new(o.seed ^ 0xc10_1d);
+  let constructed: &[(SupportLang, &str)] = &[
+    (SupportLang::Python, "if x:\n  if y:\n    a()\n    b()\n"),
+    (SupportLang::Python, "def f():\n    for i in r:\n        g(i)\n        h(i)\n    return 1\n"),
+    (SupportLang::Python, "class A:\n    def f(self):\n        pass\n        x = 1\n"),
+    (SupportLang::Yaml, "a:\n  b:\n    c: 1\n    d: 2\n"),
+    (SupportLang::Yaml, "rule:\n  any:\n    - kind: x\n    - kind: y\n"),
+    (SupportLang::Haskell, "f x = do\n    a\n    b\n"),
+    (SupportLang::Scala, "def f =\n  if x then\n    a()\n    b()\n"),
+  ];
+  for lang in SupportLang::all_langs().iter().copied() {
+    let mut srcs = corpus::clean_sources(lang, &mut rng, if o.thorough { 4 } else { 2 }, 700);
+    srcs.extend(constructed.iter().filter(|(l, _)| *l == lang).map(|(_, s)| s.to_string()));
+    for src in &srcs {
+      // runs of >= 3 blanks, and the set of line indentations
+      let b = src.as_bytes();
+      let mut runs: Vec<(usize, usize)> = vec![];
+      let mut i = 0;
+      while i < b.len() {
+        if b[i] == b' ' || b[i] == b'\t' {
+          let s0 = i;
+          while i < b.len() && (b[i] == b' ' || b[i] == b'\t') {
+            i += 1;
+          }
+          if i - s0 >= 3 {
+            runs.push((s0, i));
+          }
+        } else {
+          i += 1;
+        }
+      }
+      if runs.is_empty() {
+        continue;
+      }
+      let levels: Vec<usize> = src.lines().map(|l| l.len() - l.trim_start_matches(|c| c == ' ' || c == '\t').len()).filter(|&n| n >= 2).collect();
+      let tries = if o.thorough { 40 } else { 12 };
+      for k in 0..tries {
+        // the constructed sources go through all of their runs and levels; corpus sources are sampled
+        let (s0, e0) = if k < runs.len() { runs[runs.len() - 1 - k] } else { *rng.pick(&runs) };
+        let len = e0 - s0;
+        let target = if !levels.is_empty() && rng.chance(3, 4) { *rng.pick(&levels) } else { 2 + rng.below(8) };
+        if target == len || target < 2 {
+          continue;
+        }
+        let (pos, del, ins) = if target < len { (s0 + 1, len - target, String::new()) } else { (s0 + 1, 0, " ".repeat(target - len)) };
+        let mut new_text = src.clone();
+        new_text.replace_range(pos..pos + del, &ins);
+        let fresh = corpus::parse(lang, &new_text);
+        if corpus::has_error(&fresh.root()) {
+          out.count("indent-edit:result-has-syntax-error(skipped)");
+          continue;
+        }
+        let mut doc = corpus::parse(lang, src);
+        let _ = corpus::all_nodes(doc.root()).len();
+        let steps = json!([{"pos": pos, "del": del, "ins": ins}]);
+        let r = catch_unwind(AssertUnwindSafe(|| doc.edit(Edit::<String> { position: pos, deleted_length: del, inserted_text: ins.as_bytes().to_vec() }).is_ok()));
+        out.checked();
+        if !matches!(r, Ok(true)) {
+          out.oracle_fail("", &format!("{lang}: AstGrep::edit fails or panics on an indentation edit {steps}"), json!({"stream": "c10", "lang": lang.to_string(), "source": src, "steps": steps}));
+          continue;
+        }
+        let (mut t1, mut t2) = (vec![], vec![]);
+        dump(&doc.root(), &mut t1, 0);
+        dump(&fresh.root(), &mut t2, 0);
+        out.count(if del > 0 { "indent-edit:dedent" } else { "indent-edit:indent" });
+        let orig = { let mut t0 = vec![]; dump(&corpus::parse(lang, src).root(), &mut t0, 0); t0 };
+        let same_shape = |x: &Vec<(u16, usize, usize, usize)>, y: &Vec<(u16, usize, usize, usize)>| x.len() == y.len() && x.iter().zip(y).all(|(p, q)| p.0 == q.0 && p.3 == q.3);
+        if !same_shape(&orig, &t2) {
+          out.count("indent-edit:changes-the-block-structure");
+        }
+        out.nontrivial(&(lang.to_string(), src.len(), pos, del, ins.clone(), 99usize));
+        if doc.source().to_string() != new_text || t1 != t2 {
+          let first = t1.iter().zip(&t2).position(|(x, y)| x != y).unwrap_or(t1.len().min(t2.len()));
+          out.oracle_fail("", &format!("{lang}: after an edit inside a run of blanks the document's tree differs from a fresh parse of its text at pre-order node {first} ({} vs {} nodes): edited {:?}, fresh {:?}; steps {steps}", t1.len(), t2.len(), t1.get(first), t2.get(first)),
+            json!({"stream": "c10-tree", "lang": lang.to_string(), "source": src, "steps": steps}));
+        }
+      }
+    }
+  }
 }
 
 
